@@ -87,13 +87,15 @@ Qed.
    ([holds_view k] is the instance T = float, rare = rareF, by definition). *)
 Lemma holds_view_sound {T} (rare : T -> Z -> Z -> bool) file anc legacy steps :
   holds_view_gen rare file anc legacy steps = true ->
-  forall p t v fr t' v',
-    In (XOn p, GO t (OView v), fr) steps ->
-    a_step gtab gview g_ids1 g_ids2 g_sub1 g_sub2 t (g_interp T rare file anc legacy p) = Ok (t', OView v') ->
-    v = v'.
+  forall p t r fr t' r',
+    In (XOn p, GO t r, fr) steps -> r <> ONone ->
+    a_step gtab gview g_ids1 g_ids2 g_sub1 g_sub2 t (g_interp T rare file anc legacy p) = Ok (t', r') ->
+    r = r'.
 Proof.
-  intros H p t v fr t' v' Hin Ha. unfold holds_view_gen in H. rewrite forallb_forall in H.
-  specialize (H _ Hin). unfold view_ok_gen in H. rewrite Ha in H. apply gview_eqb_true. exact H.
+  intros H p t r fr t' r' Hin Hr Ha. unfold holds_view_gen in H. rewrite forallb_forall in H.
+  specialize (H _ Hin). unfold view_ok_gen in H. rewrite Ha in H.
+  destruct r as [|c|v]; [contradiction| |];
+    apply (out_eqb_true gtab_eqb gview_eqb (fun x y => proj1 (gtab_eqb_true x y)) gview_eqb_true); exact H.
 Qed.
 
 Lemma holds_view_sim {T} (rare : T -> Z -> Z -> bool) file anc legacy steps :
@@ -104,6 +106,8 @@ Lemma holds_view_sim {T} (rare : T -> Z -> Z -> bool) file anc legacy steps :
     forall t2, g_sub2 (g_ids2 t) ids t = Ok t2 -> v = sim_view t2.
 Proof.
   intros H ids t v fr Hin Hnd t2 Hs.
-  apply (holds_view_sound rare file anc legacy steps H (GSim ids) t v fr t (sim_view t2) Hin).
+  assert (E : OView v = OView (sim_view t2) :> out gtab gview); [|inversion E; reflexivity].
+  apply (holds_view_sound rare file anc legacy steps H (GSim ids) t (OView v) fr t (OView (sim_view t2)) Hin);
+    [discriminate|].
   unfold g_interp, a_step, chk. cbn [is_some andb bind]. rewrite Hnd. cbn [negb bind]. rewrite Hs. reflexivity.
 Qed.
